@@ -228,12 +228,16 @@ fn apply(st: &mut St, op: Op) -> Result<(), String> {
             let (tx, rx) = ipc::channel::<M>().map_err(|e| e.to_string())?;
             drop(rx);
             let (t1, r1) = ipc::channel::<u32>().map_err(|e| e.to_string())?;
-            if tx.send((vec![1], vec![Att::Tx(t1), Att::Shm(IpcSharedMemory::from_bytes(&[1, 2, 3]))])).is_ok() {
+            let (t2, r2) = ipc::channel::<u32>().map_err(|e| e.to_string())?;
+            if tx.send((vec![1], vec![Att::Tx(t1), Att::Rx(r2), Att::Shm(IpcSharedMemory::from_bytes(&[1, 2, 3]))])).is_ok() {
                 return Err("send to a closed receiver succeeded".into());
             }
-            let _ = tx.send((big(), vec![]));
+            let (t3, r3) = ipc::channel::<u32>().map_err(|e| e.to_string())?;
+            let _ = tx.send((big(), vec![Att::Rx(r3)]));
             st.misc.push(Box::new(tx));
             st.misc.push(Box::new(r1));
+            st.misc.push(Box::new(t2));
+            st.misc.push(Box::new(t3));
         },
         Op::RouterRouteClose => {
             let proxy = RouterProxy::new();
